@@ -196,7 +196,15 @@ func (r *UnitResult) Dump(w *os.File, verbose bool) {
 		if st == "unsat" && !verbose {
 			continue
 		}
-		fmt.Fprintf(w, "  %-8s %s  [%s]  %s:%d  (%d queries)\n", st, o.Name, o.Desc, shortFile(o.Pos.Filename), o.Pos.Line, len(o.Queries))
+		secs := 0.0
+		be := ""
+		for _, q := range o.Queries {
+			secs += q.Seconds
+			if q.Backend != "" {
+				be = q.Backend
+			}
+		}
+		fmt.Fprintf(w, "  %-8s %s  [%s]  %s:%d  (%d queries, %.1fs, %s)\n", st, o.Name, o.Desc, shortFile(o.Pos.Filename), o.Pos.Line, len(o.Queries), secs, be)
 		for _, q := range o.Queries {
 			if q.Result == "sat" && len(q.Model) > 0 {
 				var ks []string
